@@ -145,11 +145,23 @@ module Z =
                  | Zneg q -> Pos.eqb p q
                  | _ -> false)
 
+  (** val abs : coq_Z -> coq_Z **)
+
+  let abs = function
+  | Zneg p -> Zpos p
+  | x -> x
+
   (** val to_nat : coq_Z -> nat **)
 
   let to_nat = function
   | Zpos p -> Pos.to_nat p
   | _ -> O
+
+  (** val to_N : coq_Z -> coq_N **)
+
+  let to_N = function
+  | Zpos p -> Npos p
+  | _ -> N0
 
   (** val of_nat : nat -> coq_Z **)
 
